@@ -116,6 +116,22 @@ class Ops:
             return I(v[1], "u64")
         if k == "downcast" and v[1][0] == "next" and len(v[1]) == 2 and v[2] == "Some" and name == "0":
             return ("elem", v[1][1])
+        if k == "elem" and v[1][0] == "zip" and name in ("0", "1"):
+            # the k-th pair of A.zip(B): when A lists every variant of an enum in order, B's partner is B[variant]
+            _, A, Barr, byref = v[1]
+            ea = ("elem", A)
+            if name == "0":
+                return ea
+            a = A
+            while a[0] in ("ref", "deref", "iter"):
+                a = a[1]
+            if a[0] == "array" and a[1] and all(x[0] == "enum" for x in a[1]):
+                adt = self.facts.adts.get(a[1][0][1])
+                if adt and [vv["name"] for vv in adt["variants"]] == [x[2] for x in a[1]]:
+                    item = ("deref", ea) if A[0] in ("ref", "ptr") else ea
+                    el = self.index(Barr, ("cast", "usize", ("discr", item)))
+                    return ("ref", el) if byref else el
+            return ("field", v, name)
         if k == "downcast" and v[2] == "Ok" and name == "0" and v[1][0] == "call" and v[1][1].startswith("core::option::Option<") and v[1][1].endswith("::ok_or"):
             return self.field(self.downcast(v[1][2][0], "Some"), "0")
         if k == "downcast" and v[1][0] == "next" and len(v[1]) == 3 and v[2] == "Some" and name == "0":
@@ -1645,6 +1661,13 @@ class SymExec:
                 return ("iter", ("array", tuple(("ref", e) for e in v[1])))
             if a[0] == "ref":
                 return ("iter", a)        # `X.iter()` on a constant array reads like `for x in &X`
+        if name == "core::iter::traits::iterator::Iterator::zip" and len(args) == 2 and args[0][0] in ("iter",):
+            b = args[1]
+            if b[0] == "iter":
+                b = b[1]
+            byref = b[0] in ("ptr", "ref")
+            barr = self.deref(st, b) if byref else b
+            return ("iter", ("zip", args[0][1], barr, byref))
         if name.endswith("IntoIterator>::into_iter") or name == "core::iter::traits::collect::IntoIterator::into_iter":
             a = args[0]
             if a[0] in ("iter", "iter*"):
